@@ -445,7 +445,8 @@ class ConfigParser(object):
           "Entry [{section}]: '{key}' already exists in configuration file whilst adding value = {value}".format(
           section = override.section, key = override.key, value = override.value))
 
-      if not cp.has_section(override.section):
+      # ([Variables] is the parser's default section: it always exists and cannot be added)
+      if override.section != cp.default_section and not cp.has_section(override.section):
         cp.add_section(override.section)
       cp[override.section][override.key] = override.value
 
